@@ -9,5 +9,5 @@ if [ -f shim/getrandom_shim.c ]; then
     gcc -O2 -shared -fPIC -o .build/getrandom_shim.so shim/getrandom_shim.c -ldl
 fi
 (cd mc && cargo build --release --offline)
-(cd /repo && RUSTFLAGS='--cfg seed_verif' CARGO_TARGET_DIR=/verif/.build/subject cargo build --release --offline)
+(cd /repo && RUSTFLAGS='--cfg seed_verif -C overflow-checks=on' CARGO_TARGET_DIR=/verif/.build/subject cargo build --release --offline)
 echo "setup ok"
